@@ -95,6 +95,42 @@ PROPS = {
                 "store entry points from_hz_values / to_hz_ranges with the enclosure predicate checked on the implementation. distinct_nontrivial = distinct op lines.",
         "explanation": "theorems on bit patterns with the constants extracted from src/qty.rs: strict monotonicity, in-domain, rejection, bit-exact inverse, narrow-type monotonicity, exact cell content of F-/T-MOCs built from values",
     },
+    "C07": {
+        "trusted_base": COMMON_TB + ["nom / serde_json / byteorder are not modelled: the lexer of the ASCII model is a transliteration of the nom combinators used, validated by the ascii_dec correspondence on every generated and mutated document"],
+        "assumptions": COMMON_ASSUME + [
+            "the ASCII theorems are at token level for every list of in-domain, pairwise non-overlapping elements; that the writer is fed with elements covering exactly M is the cell view of C05 (model function itemsOf, tied by the ascii_enc correspondence: model text = real text)",
+            "fold widths, start+len notation, streaming ASCII, JSON, FITS header cards, NUNIQ files and lazy writers are exercised on real bytes by direct round-trip checks (test level); the FITS data unit bytes and padded length are tied to the model (fits_payload)"],
+        "rule": "{space,time,frequency} x {u16,u32,u64}, 60 MOCs each (400 thorough): empty, full domain, deepest level unoccupied (declared depth > needed), shallow and deep random MOCs; per MOC: ASCII text "
+                "without fold = model text; reader on it and on 4 folded/offset variants written from a lazy source of random kind (owned, borrowed, cells adapter, cellranges adapter, FITS stream) = model "
+                "reader; streaming ASCII x2, JSON x2 (folded), FITS ranges from an in-memory and from a lazy writer (header NAXIS1/NAXIS2 vs data, 2880 blocks, data bytes = model), read back and compared "
+                "with (depth, ranges); + 100 (600) space MOCs through NUNIQ FITS. distinct_nontrivial = distinct op lines with a non-empty MOC.",
+        "explanation": "theorems: token-level ASCII round trip for every element list/order/dmax (incl. empty and unoccupied deepest level), big-endian and row pairing round trips, 2880 padding, NUNIQ code round trip; correspondence on real bytes for all formats and options",
+    },
+    "C12": {
+        "trusted_base": COMMON_TB + ["the ASCII lexer model transliterates the nom combinators; serde_json and the FITS card readers are not modelled"],
+        "assumptions": COMMON_ASSUME + [
+            "totality is a theorem about the MODEL reader only (a total Lean function); for the real decoders (FITS, MOM, skymap, stream, JSON, ST variants, store loaders) it is exercised by mutation fuzzing with every panic reported (test level)",
+            "mutations keep header counts small: a NAXIS2 of billions would make from_fits_nuniq reserve memory unrelated to the input and abort the harness process (see DESIGN.md §10, not explored)",
+            "multi-order-map / sky-map readers and store loaders are not driven by this run"],
+        "rule": "per {space,time,frequency} x {u16,u32,u64} x 60 MOCs (400 thorough): 12 (40) single-field mutations of the valid ASCII document — first index outside / last inside the domain, range end "
+                "outside, reversed range, inclusive end = type maximum, offset reaching the maximum, number not representable, truncation at a random offset, one character replaced, two documents glued "
+                "(overlaps) — each decoded by the real reader and by the model (same verdict, depth and ranges); the same boundary numbers as JSON; 8 (30) mutated FITS files and 4 (10) mutated streaming "
+                "documents (any panic is a failure); + 500 (3000) random token soups through the ASCII, JSON and FITS readers. distinct_nontrivial = distinct op lines.",
+        "explanation": "theorems: accepted ASCII documents are valid (depth within maximum, every element inside the domain of its depth, pairwise non-overlapping, canonical result covering exactly the elements), no number leaves the index type, model reader total; mutation correspondence",
+    },
+    "C13": {
+        "trusted_base": COMMON_TB + ["the `slab` crate (0.4) is modelled by transliteration (entries vector + free list), not verified; std::sync::RwLock is assumed to make every lock section atomic",
+            "the library operation applied by op1/op2/opn is a parameter of the theorems (any function of the operands' values); the driver instantiates it with the proved operators of C01/C06"],
+        "assumptions": COMMON_ASSUME + [
+            "concurrency theorem: executions are sequences of lock sections (RwLock atomicity assumed); hypothesis SafeTrace = no section drops an operand of an operation that is between its read and its write section (the statement's 'shared read-only operands')",
+            "lock fairness / re-entrancy / poisoning are runtime behaviour: exercised by 8 real threads under a watchdog (direct implementation checks conc-*), not proved",
+            "space-time entries and the constructors from geometry are outside the modelled population (S-, T-, F-MOCs inserted as values)"],
+        "rule": "ONE continuous sequential history on the process-wide store (6 000 calls quick / 60 000 thorough + 259-copy bursts + a final sweep of 80 indices): add, copy, drop, get, not, degrade, and, or, "
+                "xor, minus, multi-and/or/xor over S/T/F values, with dead or never-allocated indices (1 in 12), mismatched kinds, empty operand lists, drain phases (slot reuse order) — every answer "
+                "(index handed out, value, error class) compared with the model state kept from line to line; then 8 threads x 2.5 s (12 s thorough) of private histories on 4 shared read-only operands: "
+                "every value checked against the library result, indices pairwise distinct while live, stall watchdog (10 s), store usable afterwards. distinct_nontrivial = distinct op lines.",
+        "explanation": "theorems: refinement of the slab store to a reference registry for every call and history, freshness of handed-out indices, value stability, count arithmetic, two-phase atomicity, interleavings = sequential order of completion sections; correspondence on a long history + threaded run",
+    },
     "C17": {
         "trusted_base": COMMON_TB + ["space morphology: independent brute-force oracle in the harness (flat cell set + cdshealpix::nested::neighbours) — implementation-vs-oracle, no Lean model"],
         "assumptions": COMMON_ASSUME + [
